@@ -294,9 +294,12 @@ def rec_cond(vc, rid, name, base, tr, q, rng):
             r["k"] = int(round(kk)) if abs(kk - round(kk)) < 1e-6 else (-1 if xm > 0.05 + 1e-12 else int(round(kk)))
             r["atfloor"] = bool(abs(xm - 0.05) < 1e-12 or xm * 0.7 <= 0.05)
             pdf_at = lambda z: float(t.pdf(np.array([[hs, z]]))[0])  # noqa
-            # the search since D58 returns the grid value tried BEFORE the first one that reaches the threshold
-            r["fat"] = bool(pdf_at(xm) >= f["f_threshold"])
-            r["fnext"] = bool(pdf_at(xm * 0.7) >= f["f_threshold"])
+            # the search since D76: x_max = (largest point of the dense grid geomspace(0.05, 100, 2000) whose density
+            # reaches the effective threshold) / 0.7, capped at 100
+            step = (100.0 / 0.05) ** (1.0 / 1999.0)
+            r["fat"] = bool(pdf_at(xm * 0.7) >= f["f_threshold"])                 # the grid point itself is in the support
+            r["fnext"] = bool(xm >= 100.0 - 1e-9 or pdf_at(xm * 0.7 * step) < f["f_threshold"])   # the next one is not
+            r["k"] = 0
             r["tail"] = clampq(1.0 - float(exact_tz_cdf(base, xm, hs)), 1e9)
         if smp is not None and len(smp) >= 1000:
             xs = np.sort(smp)
@@ -326,6 +329,72 @@ def rec_cond(vc, rid, name, base, tr, q, rng):
         if _verif is not None:
             _verif.set_sink(None)
     return r
+
+
+def rec_cond_dim0(vc, rid, name, base, tr, tz, rng):
+    """Monte-Carlo conditional of the FIRST variable (Hs given Tz), which is bimodal for long periods; the reference
+    is the model's own joint density integrated along Hs on a fine geometric grid (the density itself is judged by
+    the push-forward records)."""
+    t = tmodel(vc, base, tr)
+    r = dict(id=rid, kind="cond", exc="", name=name + " Hs|Tz", q=f"tz={tz}", hooked=False, k=-1, atfloor=False, fat=False,
+             fnext=True, tail=0, sampled=False, ks4=0, n=1, cdf4=0, ncdf=1, icdf4=0, nicdf=1, intsame=True)
+    try:
+        g = np.geomspace(1e-9, 300.0, 400001)
+        with warnings.catch_warnings():
+            warnings.simplefilter("ignore")
+            f = np.asarray(t.pdf(np.c_[g, np.full_like(g, tz)]), dtype=float)
+        f = np.where(np.isfinite(f), f, 0.0)
+        cum = np.concatenate([[0.0], np.cumsum(0.5 * (f[1:] + f[:-1]) * np.diff(g))])
+        tot = cum[-1]
+        F = lambda z: np.interp(np.asarray(z, dtype=float), g, cum / tot)  # noqa
+        n = 50000
+        seed = int(rng.integers(0, 2**31))
+        with warnings.catch_warnings():
+            warnings.simplefilter("ignore")
+            try:
+                smp = np.asarray(t.conditional_sample(n, 0, [tz], random_state=seed), dtype=float)
+            except Exception as e:  # noqa
+                smp = None
+                r["sampleexc"] = type(e).__name__
+        if smp is not None and len(smp) >= 1000:
+            xs = np.sort(smp)
+            m = len(xs)
+            Fx = F(xs)
+            ks = max(np.max(np.arange(1, m + 1) / m - Fx), np.max(Fx - np.arange(0, m) / m))
+            r.update(sampled=True, ks4=clampq(ks, 1e4), n=m, tail=clampq(1.0 - float(F(float(xs[-1]) * 1.3)), 1e9))
+            ps = np.array([0.5, 0.9, 0.99])
+            with warnings.catch_warnings():
+                warnings.simplefilter("ignore")
+                xi = np.asarray(t.conditional_icdf(ps, 0, [[tz]] * 3, random_state=seed + 2), dtype=float)
+                xq = np.quantile(xs, [0.2, 0.5, 0.9])
+                pc = np.asarray(t.conditional_cdf(xq, 0, [[tz]] * 3, random_state=seed + 1), dtype=float)
+            r.update(cdf4=clampq(np.max(np.abs(pc - F(xq))), 1e4), ncdf=100000,
+                     icdf4=clampq(np.max(np.abs(F(xi) - ps)), 1e4), nicdf=100000)
+        else:
+            r["tail"] = 10**9     # nothing was sampled although the conditional density exists
+    except Exception as e:  # noqa
+        r["exc"] = f"{type(e).__name__}: {e}"[:200]
+    return r
+
+
+def bimodal_cases(vc):
+    """(name, base, tr, tz): Hs-steepness models whose conditional density of Hs given a long Tz has two modes (D76)"""
+    out = []
+    C = vc.read_ec_benchmark_dataset(str(REPO / "datasets" / "ec-benchmark_dataset_C_1year.txt")).values
+    dd, fd, sem, tr = vc.get_Windmeier_EW_Hs_S()
+    base = vc.GlobalHierarchicalModel(dd)
+    with warnings.catch_warnings():
+        warnings.simplefilter("ignore")
+        base.fit(tr["transform"](C), fd)
+    out.append(("bimodal:Windmeier fitted to C", base, tr, 14.5))
+    dd, fd, sem, tr = vc.get_Nonzero_EW_Hs_S()
+    b2 = vc.GlobalHierarchicalModel(dd)
+    d0, d1 = b2.distributions
+    d0.alpha, d0.beta, d0.delta = 0.6938265467068199, 0.6558353452788112, 2.9594163458893794
+    d1.conditional_parameters["alpha"].parameters = {"a": 0.09215253891129106, "b": 0.7513560377021065}
+    d1.conditional_parameters["beta"].parameters = {"a": 0.9100546060034046, "b": 1.2036171498390844}
+    out.append(("bimodal:Nonzero round", b2, tr, 12.0))
+    return out
 
 
 def rec_cond_history(vc, rid, name, base0, tr, rng):
@@ -420,13 +489,13 @@ def run(ctx):
                    "hook event cond_sample_support (x_max bound to truth by re-evaluating the joint pdf at x_max and 0.7 x_max)"]
     ctx.assumptions = ["Monte-Carlo sizes n0/n1 of the transformed IFORM are recomputed in the driver with the documented sizing rule",
                        "conditional laws are checked for the second variable (Tz given Hs), where an exact reference exists"]
-    ctx.model_check("SupportSearch", "MC_SupportSearch_current.cfg", must_cover=("Shrink", "Stop", "Floor"))
-    ctx.model_check("SupportSearch", "MC_SupportSearch_relative.cfg")
+    ctx.model_check("SupportSearch", "MC_SupportSearch_current.cfg", must_cover=("Dense",))
     # the search up to D58 (first grid value above the threshold) cuts into / steps over narrow profiles
     ctx.model_check("SupportSearch", "MC_SupportSearch_firstabove.cfg", expect_violation="NoTailTruncation")
-    # the absolute threshold finds nothing in a profile that an extreme conditioning value scaled down:
-    # the design-level counterpart of the known finding D15
-    ctx.model_check("SupportSearch", "MC_SupportSearch_extreme.cfg", expect_violation="NoTailTruncation")
+    # D58 .. D76 (the grid value before it) still steps over the upper mode of a bimodal profile
+    ctx.model_check("SupportSearch", "MC_SupportSearch_stepback.cfg", expect_violation="NoTailTruncation")
+    # up to D77 the absolute threshold found nothing in a profile that an extreme conditioning value scaled down
+    ctx.model_check("SupportSearch", "MC_SupportSearch_absolute.cfg", expect_violation="NoTailTruncation")
     ctx.model_check("SampleCache", "MC_SampleCache_tagged.cfg", must_cover=("FitTransformed", "FitBase", "Read"))
     ctx.model_check("SampleCache", "MC_SampleCache_fitonly.cfg", expect_violation="CacheCurrent")
     ctx.model_check("SampleCache", "MC_SampleCache_never.cfg", expect_violation="CacheCurrent")
@@ -483,6 +552,12 @@ def run(ctx):
             add(rec_cond(vc, nid(), name, base, tr, q, rng))
     for name, base, tr, q in narrow_models(vc, rng, ctx.pick(0, 16)):
         add(rec_cond(vc, nid(), name, base, tr, q, rng))
+    for name, base, tr, tz in bimodal_cases(vc):
+        add(rec_cond_dim0(vc, nid(), name, base, tr, tz, rng))
+    # beyond the 1 - 1e-7 quantile the whole joint-density profile lies below the former absolute threshold (D77)
+    for name, base, tr in models[:ctx.pick(1, 2)]:
+        for q in ctx.pick([0.9999999], [0.999999, 0.9999999, 0.99999999]):
+            add(rec_cond(vc, nid(), name, base, tr, q, rng))
     for name, base, tr in models[:ctx.pick(1, 3)]:
         add(rec_cond_history(vc, nid(), name, base, tr, rng))
     icases = ctx.pick([(0, 0.05, 6, 0.1)], [(0, 0.05, 8, 0.1), (1, 0.02, 8, 0.5), (2, 0.05, 6, 1.0), (3, 0.1, 10, 0.2)])
